@@ -58,7 +58,7 @@ def run(prog, rep):
     rep.rule("E5.node", "add_graph_node returns the pre-push length; iter_nodes is 0..len")
     # E2.d over the interpreters: Attributes::add / add_edge results
     rep.rule("E2.d", "every Attributes::add failure becomes DuplicateAttribute and is propagated; add_edge results are never ignored other than 'existing edge kept'")
-    fns = [f for f in prog.fns.values() if f.file in ("src/execution/strict.rs", "src/execution/lazy.rs", "src/execution/lazy/statements.rs", "src/execution.rs", "src/graph.rs")]
+    fns = [f for f in prog.shape_fns() if f.file in ("src/execution/strict.rs", "src/execution/lazy.rs", "src/execution/lazy/statements.rs", "src/execution.rs", "src/graph.rs")]
     n2, kinds = e2.run_e2d(prog, rep, fns, e2.ABSORB)
     rep.floor("E2.d", n2, 150, "fallible call sites in the interpreters and graph")
     na = 0
@@ -85,9 +85,9 @@ def run(prog, rep):
     # no graph reset on the execute_into paths
     rep.rule("C09.keep", "execute_into never creates, clears or truncates the graph it is given; only execute() creates a graph")
     cg = prog.callgraph()
-    roots = [f.id for f in prog.fns.values() if f.name == "execute_into" and f.self_path == "tsg::ast::File"]
+    roots = [f.id for f in prog.shape_fns() if f.name == "execute_into" and f.self_path == "tsg::ast::File"]
     reach = cg.reachable_from(roots)
-    newg = [f.id for f in prog.fns.values() if f.self_path == "tsg::graph::Graph" and f.name in ("new", "default")]
+    newg = [f.id for f in prog.shape_fns() if f.self_path == "tsg::graph::Graph" and f.name in ("new", "default")]
     bad = sorted(set(newg) & reach)
     rep.check(len(roots) == 1 and not bad, "C09.keep", "execute_into :: no new graph", "", "Graph::new/default unreachable from execute_into",
               "execute_into can create a fresh graph: %s" % bad)
